@@ -307,6 +307,103 @@ class FA:
                         changed = True
         return res
 
+    def outcomes(self, target_text: str, cap: int = 4000):
+        """What a name / attribute finally holds when the function returns normally, per path class:
+        a list of (frozenset of literals, value text) — the value last assigned to `target_text` (e.g.
+        'self.read_only') on each acyclic path from the entry to the normal exit, with the path's branch
+        literals; conditional expressions are split into their two cases.  Paths are merged when they assign
+        the same value and differ in one literal.  None when there are too many paths."""
+        cfg = self.cfg
+        res = {}
+        count = [0]
+        fa = self
+
+        def split(value_node, node_id):
+            """[(extra literals, value text)] for a value that may be a conditional expression / `a or b`."""
+            v = value_node
+            if not getattr(v, "_expanded", False):
+                try:
+                    v = fa.expand(v, node_id)
+                except AnalysisError:
+                    pass
+                for x_ in ast.walk(v):
+                    x_._expanded = True
+            if isinstance(v, ast.BoolOp) and isinstance(v.op, ast.Or) and len(v.values) == 2:
+                # `a or b`: a when a is truthy, else b
+                a_, b_ = v.values
+                return [(fa._atoms(a_, node_id, True), fa.xnorm(a_, node_id))] + [(fa._atoms(a_, node_id, False) + l_, t_) for (l_, t_) in split(b_, node_id)]
+            if isinstance(v, ast.IfExp):
+                out = []
+                for (lits_t, txt) in split(v.body, node_id):
+                    out.append((fa._atoms(v.test, node_id, True) + lits_t, txt))
+                for (lits_f, txt) in split(v.orelse, node_id):
+                    out.append((fa._atoms(v.test, node_id, False) + lits_f, txt))
+                return out
+            return [([], fa.xnorm(v, node_id))]
+
+        def dfs(n, onpath, lits, last):
+            if count[0] > cap:
+                return
+            if n == cfg.exit:
+                count[0] += 1
+                if last is not None:
+                    for (extra, txt) in last:
+                        if any((a[0], not a[1]) in lits for a in extra):
+                            continue
+                        res.setdefault(txt, set()).add(frozenset(lits + [a for a in extra if a not in lits]))
+                else:
+                    res.setdefault("<unassigned>", set()).add(frozenset(lits))
+                return
+            nd = cfg.node(n)
+            if nd.kind == "stmt" and isinstance(nd.ast, (ast.Assign, ast.AnnAssign)) and getattr(nd.ast, "value", None) is not None:
+                tg = nd.ast.targets if isinstance(nd.ast, ast.Assign) else [nd.ast.target]
+                if any(A.norm(t) == target_text for t in tg):
+                    last = split(nd.ast.value, n)
+            for (d, l) in cfg.succ[n]:
+                if d in onpath or l == "exc":
+                    continue
+                add = []
+                if nd.kind == "test" and l in ("T", "F") and not isinstance(fa.pm.get(nd.ast), ast.While):
+                    add = fa._atoms(nd.ast, n, l == "T")
+                if any((a[0], not a[1]) in lits for a in add):
+                    continue
+                onpath.add(d)
+                dfs(d, onpath, lits + [a for a in add if a not in lits], last)
+                onpath.discard(d)
+
+        dfs(cfg.entry, {cfg.entry}, [], None)
+        if count[0] > cap:
+            return None
+        out = []
+        for txt, conds in res.items():
+            cs = set(conds)
+            changed = True
+            while changed:
+                changed = False
+                lst = list(cs)
+                for i in range(len(lst)):
+                    for j in range(i + 1, len(lst)):
+                        a, b = lst[i], lst[j]
+                        diff = a ^ b
+                        if len(diff) == 2:
+                            x, y = tuple(diff)
+                            if x[0] == y[0] and x[1] != y[1]:
+                                cs.discard(a)
+                                cs.discard(b)
+                                cs.add(a & b)
+                                changed = True
+                                break
+                    if changed:
+                        break
+                if not changed:
+                    for a in list(cs):
+                        if any(b < a for b in cs):
+                            cs.discard(a)
+                            changed = True
+            for c in cs:
+                out.append((c, txt))
+        return out
+
     def path_desc(self, start, target, removed=()):
         p = self.cfg.path(start, target, removed)
         return self.cfg.describe_path(p) if p else "(no path)"
